@@ -625,6 +625,9 @@ func (df *DataFrame) applyRowWise(fn FuncType) (any, error) {
 		// map results back to columns with the correct index
 		switch val := result.data.(type) {
 		case []any:
+			if len(val) < len(nCols) {
+				return nil, fmt.Errorf("function returned %d values for row %d, which has %d columns", len(val), result.index, len(nCols))
+			}
 			for j, colName := range nCols {
 				// if the custom function returns []any,
 				// it is assumed that the user custom function returns the entire row of unique data
